@@ -186,7 +186,16 @@ Qed.
 Theorem C16_str_single_quote : forall s, good_str DELIM1 s = true <-> qfree s = true.
 Proof. exact good_str_D1. Qed.
 
-Example C16_str_single_quote_ex : good_str DELIM1 ex_str2 = true /\ good_str DELIM2 ex_str1 = true.
+Example C16_str_single_quote_ex : good_str DELIM1 ex_str2 = true /\ good_str DELIM1 ex_str1 = false.
+Proof. split; reflexivity. Qed.
+
+(** Doubled dialect: a string is admissible iff it contains no two adjacent quote characters and does
+    not end with a quote character (single quote characters inside are fine). *)
+Theorem C16_str_double_quote : forall s,
+  good_str DELIM2 s = true <-> (find_sub DELIM2 s = None /\ last s 0 <> QUOTE).
+Proof. exact good_str_D2. Qed.
+
+Example C16_str_double_quote_ex : good_str DELIM2 ex_str1 = true /\ good_str DELIM2 [97; 34] = false.
 Proof. split; reflexivity. Qed.
 
 (** Stated limit of the float domain: a bare token made only of hex digits is read as a hexadecimal
